@@ -4,7 +4,7 @@ from .. import c09_gen as G
 
 CLAIM = dict(
     technique="runtime monitoring of generated programs: the same numeric call under many type configurations (differential) + NumPy reference + three builds compared line by line; sanitizers on",
-    text="Generated translation units (programs drawn from VERIF_SEED, restricted to the compile-probed allow-list vf/c09_supported.json) make the same index-function / view / eval call with shape-like arguments as compile-time constants, literals, clipped, fixed, raw, tuple, bounded, hybrid, dynamic and maybe containers and mixed pairs, with array operands as the 15 ndarray_t kinds, their column-major twins, raw/nested/fixed/hybrid/dynamic arrays, and with the whole call evaluated in a constant expression; every configuration's normalised (has_value, shape, elements) is compared with an independent NumPy model over the baked value sets, every shape admitted by the clipped bounds and seeded samples; asan(gcc+STL)/clang/nostl builds of one program are compared record by record. Besides single views and their evaluation, 14 composite operations (view of a view, depth 2 and 3: sum/cumsum/transpose/reshape/slice/flatten/add/multiply/tile over tile, repeat, pad, broadcast_to, concatenate, sum, add) are generated in every tier over the fixed / hybrid / clipped / raw / nested array kinds with run-time inner arguments: the lazy composite and its single evaluation must both equal NumPy. Sampled product of configurations x values: held-on-observed.",
+    text="Generated translation units (programs drawn from VERIF_SEED, restricted to the compile-probed allow-list vf/c09_supported.json) make the same index-function / view / eval call with shape-like arguments as compile-time constants, literals, clipped, fixed, raw, tuple, bounded, hybrid, dynamic and maybe containers and mixed pairs, with array operands as the 15 ndarray_t kinds, their column-major twins, raw/nested/fixed/hybrid/dynamic arrays, and with the whole call evaluated in a constant expression; every configuration's normalised (has_value, shape, elements) is compared with an independent NumPy model over the baked value sets, every shape admitted by the clipped bounds and seeded samples; asan(gcc+STL)/clang/nostl builds of one program are compared record by record. Besides single views and their evaluation, 14 composite operations (view of a view, depth 2 and 3: sum/cumsum/transpose/reshape/slice/flatten/add/multiply/tile over tile, repeat, pad, broadcast_to, concatenate, sum, add) are generated in every tier over the fixed / hybrid / clipped / raw / nested array kinds with run-time inner arguments: the lazy composite and its single evaluation must both equal NumPy. A second wave of 59 operations (vf/c09_ops2.py: index functions shape_roll / roll / shape_take / take / shape_compress / shape_sliding_window / swapaxes_to_transpose / shape_diagonal / shape_expand / shape_vstack / hstack_axis / arange_shape / split ... and the views flip, roll, take, compress, squeeze, atleast_nd, swapaxes, moveaxis, stack, hstack, vstack, sliding_window, diagonal, trace, tril, triu, where, cumsum, cumprod, prod, amax, amin, mean, resize, expand, arange, linspace, eye, tri, full, zeros, ones, outer, dot, tensordot, kron) is touched under every seed by a deterministic core (constant / fixed / tightly bounded / dynamic index arguments; constant-shape / hybrid / dynamic operands); the quick tier additionally draws 4 of their index functions and 3 of their views from the seed with the full kind list, thorough runs every one. Sampled product of configurations x values: held-on-observed.",
     note="Trusted: NumPy / Python as the reference, the allow-list (combinations the library does not compile are not generated; a program that stops compiling is inconclusive, not a violation), ASan+UBSan+_GLIBCXX_ASSERTIONS builds. Element type of array operands is int only; LeakSanitizer is off in the nostl build (utl::maybe leak belongs to C19).",
     ref="DESIGN.md 3, 4/C09")
 TARGETS_QUICK = [CR.quick_targets_seed0]
@@ -26,6 +26,7 @@ def run(ctx):
     ctx.set("failing_calls_not_given_to_instances_without_failure_channel", info.get("failing_calls_not_given_to_instances_without_failure_channel", 0))
     ctx.set("crashes_contained", sum(1 for r in recs if r.crash is not None))
     ctx.set("value_spaces", info["spaces"])
+    ctx.set("cells_excluded_pending_triage", info.get("cells_excluded_pending_triage", {}))
     ctx.set("defect_families_observed", cov.get("families", {}))
     ctx.set("instances_cut_short_after_repeated_crashes", info.get("instances_cut_short_after_repeated_crashes", {}))
     if info.get("dropped"):
